@@ -542,6 +542,46 @@ func c01Workload(c *core.Ctx, scale uint64, race bool) {
 			})
 		}
 	})
+	// (c') receivers that are not fresh and not the result of an earlier decode either: values built
+	// by hand (any list lengths and capacities, with and without spare capacity behind every
+	// slice), for the 16 packet types and for the chunk decoder with a list-valued receiver
+	c.Section("built-receivers", scale*c.N(40000, 2000000), func(cs *core.Case) {
+		r := cs.R
+		k := gen.Kind(cs.Idx % uint64(gen.NumKinds))
+		var in []byte
+		if e, err := ref.Encode(gen.Packet(r, k, gen.Opts{Small: true, NoBig: true}), ref.Lib); err == nil {
+			in = e.B
+		} else {
+			in = []byte{0x80, 200, 0, 0}
+		}
+		if r.Chance(1, 3) {
+			in = gen.Mutate(r, in)
+		}
+		recv := gen.Packet(r, k, gen.Opts{Small: true, NoBig: true, AllowKF: true})
+		if r.Bool() {
+			recv = mon.AddSlack(recv, r.Intn(4), r.U64).(rtcp.Packet)
+		}
+		before := vdump(recv)
+		if pan, v, st := core.Guard(func() { _ = recv.Unmarshal(cloneBytes(in)) }); pan {
+			cs.Fail("panic/built-receiver/"+entryPoints[1+int(k)].name, core.W{"entry_point": entryPoints[1+int(k)].name, "input_hex": mon.Hex(in, 400), "receiver_before_this_call": before, "panic": fmt.Sprint(v), "stack": st})
+			return
+		}
+		cs.Eval(1)
+		cs.Distinct(core.Digest([]byte("br"), in, []byte(before)))
+		c.Res.Hist["built-receiver-decodes"]++
+		// the status vector chunk decoder with receivers holding 0..20 symbols at capacity == length
+		// or more, both symbol sizes, every chunk word class
+		for i := 0; i < 4; i++ {
+			n := r.Intn(21)
+			sv := rtcp.StatusVectorChunk{Type: uint16(r.Intn(2)), SymbolSize: uint16(r.Intn(3)), SymbolList: make([]uint16, n, n+r.Pick(0, 0, 1, 7, 14))}
+			w := []byte{byte(0x80 | r.Intn(128)), r.U8()}
+			if pan, v, st := core.Guard(func() { _ = sv.Unmarshal(w) }); pan {
+				cs.Fail("panic/built-receiver/(*StatusVectorChunk).Unmarshal", core.W{"entry_point": "(*StatusVectorChunk).Unmarshal", "input_hex": mon.Hex(w, 4), "receiver_symbols": n, "receiver_capacity": cap(sv.SymbolList) - 0, "panic": fmt.Sprint(v), "stack": st})
+				return
+			}
+			cs.Eval(1)
+		}
+	})
 	// (d) purely random short strings with a plausible first octet
 	c.Section("random", scale*c.N(20000, 1000000), func(cs *core.Case) {
 		r := cs.R
